@@ -101,7 +101,7 @@ func redialEvents(evs []hk.Event, conn int) []map[string]interface{} {
 func checkRedial(d *fw.Driver, res *fw.Result, evs []hk.Event, reconnect bool, sig string, c map[string]interface{}) error {
 	conn := clientConn(evs)
 	revs := redialEvents(evs, conn)
-	ask := map[string]interface{}{"op": "redial", "cfg": map[string]interface{}{"reconnect": reconnect, "minDelay": int(minD / time.Microsecond)}, "events": revs}
+	ask := map[string]interface{}{"op": "redial", "cfg": map[string]interface{}{"reconnect": reconnect, "minDelay": int(minD / time.Microsecond), "maxDelay": int(maxD / time.Microsecond)}, "events": revs}
 	model, err := d.Ask(ask)
 	if err != nil {
 		return err
@@ -113,18 +113,31 @@ func checkRedial(d *fw.Driver, res *fw.Result, evs []hk.Event, reconnect bool, s
 	// spawn or dial; no dial at all without a dial factory
 	mon := ""
 	mark := int64(-1)
+	k := 0 // consecutive dials of the current redial cycle, counted by the harness (not read off the hook)
 	for _, e := range revs {
 		t := e["t"].(int64)
 		switch e["e"] {
 		case "spawn":
 			mark = t
+			k = 0
 		case "dial":
+			// the backoff's lower bound for the k-th consecutive attempt: min * 1.5^k, capped at max
+			lo := float64(minD / time.Microsecond)
+			for i := 0; i < k; i++ {
+				lo *= 1.5
+			}
+			if m := float64(maxD / time.Microsecond); lo > m {
+				lo = m
+			}
 			if !reconnect {
 				mon = "a client created WithNoReconnect dialled again"
 			} else if mark >= 0 && t-mark < int64(minD/time.Microsecond) {
 				mon = fmt.Sprintf("redial attempt %v started %d µs after the previous attempt / the start of the redial (configured minimum %d µs): the backoff was skipped", e["n"], t-mark, int64(minD/time.Microsecond))
+			} else if mark >= 0 && float64(t-mark) < lo-1 {
+				mon = fmt.Sprintf("consecutive redial attempt number %d of this outage started %d µs after the previous one; the configured backoff (min %v, max %v, factor 1.5 per attempt) requires at least %.0f µs: the delay does not grow", k, t-mark, minD, maxD, lo)
 			}
 			mark = t
+			k++
 		}
 	}
 	c["redial_events"] = revs
